@@ -653,6 +653,7 @@ func main() {
 		{"aggLoopSrc", []string{"AggLoopSrc.lean"}, genAggLoopSrc},
 		{"mainOpts", []string{"MainOpts.lean"}, genMainOpts},
 		{"messageSrc", []string{"MessageSrc.lean"}, genMessageSrc},
+		{"factoryOpts", []string{"FactoryOpts.lean"}, genFactoryOpts},
 	}
 	status := map[string]interface{}{}
 	failed := 0
